@@ -197,7 +197,7 @@ def gen_spec(rng, pairing=None, small=False, allow_tiering=False,
     pairing = pairing or rng.choice(["batch", "queue", "dynamic", "greedy"])
     if pairing == "batch":
         parts = rng.randint(1, min(3, nm))
-        mn = rng.randint(1, max(1, nm // parts))
+        mn = rng.randint(0, max(1, nm // parts))      # 0 is legal: "no minimum" (F12)
         sched = {"kind": "batch", "partitions": parts, "min": mn, "split": None}
         if rng.random() < 0.25:
             split = {}
